@@ -47,4 +47,306 @@ Proof.
   rewrite (cheb_aux_nth x (S k) (S (S (S k))) k) by lia.
   apply cheb_aux_rec. lia.
 Qed.
+
+(* ---------------------------------------------------------------- multi-index sums: a few more lemmas *)
+Lemma msum_bsum_swap ns n (f : list nat -> nat -> T) :
+  msum K ns (fun idx => bsum K n (fun j => f idx j)) = bsum K n (fun j => msum K ns (fun idx => f idx j)).
+Proof.
+  revert f; induction ns as [|m ns IH]; intros f; cbn [msum]; [reflexivity|].
+  rewrite (bsum_ext K m _ (fun i => bsum K n (fun j => msum K ns (fun idx => f (i :: idx) j)))).
+  2:{ intros i Hi. apply IH. }
+  apply bsum_swap; auto.
+Qed.
+Lemma msum_swap ns ms (f : list nat -> list nat -> T) :
+  msum K ns (fun i => msum K ms (fun j => f i j)) = msum K ms (fun j => msum K ns (fun i => f i j)).
+Proof.
+  revert f; induction ms as [|m ms IH]; intros f; cbn [msum]; [reflexivity|].
+  rewrite msum_bsum_swap. apply bsum_ext; intros j Hj. apply IH.
+Qed.
+Lemma msum_mul_r ns c f : msum K ns (fun idx => f idx * c) = msum K ns f * c.
+Proof.
+  rewrite (msum_ext K ns _ (fun idx => c * f idx)) by (intros; ring).
+  rewrite msum_mul_l by auto. ring.
+Qed.
+Lemma inb_length ns idx : inb ns idx -> length idx = length ns.
+Proof. unfold inb. intros H. induction H; cbn [length]; auto. Qed.
+Lemma inb_cons n ns i idx : inb (n :: ns) (i :: idx) <-> i < n /\ inb ns idx.
+Proof. unfold inb. split; [intros H; inversion H; auto | intros [A B]; constructor; auto]. Qed.
+Lemma inb_nth ns idx k : inb ns idx -> k < length ns -> nth k idx O < nth k ns O.
+Proof.
+  unfold inb. intros H; revert k; induction H; intros k Hk; cbn [length] in Hk; [lia|].
+  destruct k; cbn [nth]; auto. apply IHForall2. lia.
+Qed.
+
+(* product over the dimensions of matrix entries:  prod_k M_k[i_k, j_k] *)
+Fixpoint mprod (Ms : list (nat -> nat -> T)) (idx jdx : list nat) : T :=
+  match Ms, idx, jdx with
+  | M :: Ms', i :: idx', j :: jdx' => M i j * mprod Ms' idx' jdx'
+  | _, _, _ => 1
+  end.
+Lemma mprod_ext Ms Ms' ns ms idx jdx : inb ns idx -> inb ms jdx ->
+  Forall2 (fun M M' => True) Ms Ms' ->
+  (forall k i j, i < nth k ns O -> j < nth k ms O -> nth k Ms (fun _ _ => 0) i j = nth k Ms' (fun _ _ => 0) i j) ->
+  mprod Ms idx jdx = mprod Ms' idx jdx.
+Proof.
+  intros Hi Hj HF; revert ns ms idx jdx Hi Hj.
+  induction HF as [|M M' Ms Ms' _ HF IH]; intros ns ms idx jdx Hi Hj H; [reflexivity|].
+  destruct idx as [|i idx]; [reflexivity|]. destruct jdx as [|j jdx]; [reflexivity|].
+  destruct ns as [|n ns]; [inversion Hi|]. destruct ms as [|m ms]; [inversion Hj|].
+  apply inb_cons in Hi as [Hi Hi']. apply inb_cons in Hj as [Hj Hj']. cbn [mprod].
+  pose proof (H O i j) as H0. cbn [nth] in H0. rewrite H0 by auto. f_equal.
+  apply (IH ns ms); auto. intros k i' j' A B. apply (H (S k)); auto.
+Qed.
+(* sum over all multi-indices of a product of per-dimension factors = product of the 1-D sums *)
+Fixpoint sprod (ns : list nat) (fs : list (nat -> T)) : T :=
+  match ns, fs with
+  | n :: ns', f :: fs' => bsum K n f * sprod ns' fs'
+  | _, _ => 1
+  end.
+Fixpoint lprod (fs : list (nat -> T)) (idx : list nat) : T :=
+  match fs, idx with
+  | f :: fs', i :: idx' => f i * lprod fs' idx'
+  | _, _ => 1
+  end.
+Lemma msum_lprod ns : forall fs, length fs = length ns -> msum K ns (lprod fs) = sprod ns fs.
+Proof.
+  induction ns as [|n ns IH]; intros [|f fs] L; cbn [length] in L; try discriminate; cbn [msum sprod lprod]; auto.
+  rewrite (bsum_ext K n _ (fun i => f i * sprod ns fs)).
+  2:{ intros i Hi. rewrite msum_mul_l by auto. rewrite IH by lia. reflexivity. }
+  rewrite bsum_mul_r by auto. reflexivity.
+Qed.
+(* Kronecker delta in every dimension picks one term *)
+Definition delta (i j : nat) : T := if Nat.eqb i j then 1 else 0.
+Fixpoint dprod (idx jdx : list nat) : T :=
+  match idx, jdx with
+  | i :: idx', j :: jdx' => delta i j * dprod idx' jdx'
+  | _, _ => 1
+  end.
+Lemma msum_dprod ns : forall idx (c : list nat -> T), inb ns idx ->
+  msum K ns (fun jdx => dprod idx jdx * c jdx) = c idx.
+Proof.
+  induction ns as [|n ns IH]; intros idx c H.
+  - inversion H; subst. cbn [msum dprod]. ring.
+  - destruct idx as [|i idx]; [inversion H|]. apply inb_cons in H as [Hi H]. cbn [msum].
+    rewrite (bsum_single K Rth n i); auto.
+    + cbn [dprod]. unfold delta. rewrite Nat.eqb_refl.
+      rewrite (msum_ext K ns _ (fun jdx => dprod idx jdx * c (i :: jdx))) by (intros; ring).
+      apply (IH idx (fun jdx => c (i :: jdx))); auto.
+    + intros j Hj Hne. rewrite (msum_ext K ns _ (fun _ => 0)); [apply msum_0; auto|].
+      intros jdx _. cbn [dprod]. unfold delta.
+      destruct (Nat.eqb_spec i j); [congruence|ring].
+Qed.
+
+(* ---------------------------------------------------------------- mode-wise linear maps on TT-cores *)
+(* the core with the m x n matrix M applied to the mode axis:  G'[a, j, b] = sum_i M[j, i] G[a, i, b] *)
+Definition cmode (m : nat) (M : nat -> nat -> T) (G : core T) : core T :=
+  mkcore (cr1 G) m (cr2 G) (fun a j b => bsum K (cn G) (fun i => M j i * cget K G a i b)).
+Fixpoint tmode (Ms : list (nat * (nat -> nat -> T))) (Y : list (core T)) : list (core T) :=
+  match Ms, Y with
+  | mM :: Ms', G :: Y' => cmode (fst mM) (snd mM) G :: tmode Ms' Y'
+  | _, _ => []
+  end.
+Lemma mkcore_ext r1 n r2 f g : (forall a i b, a < r1 -> i < n -> b < r2 -> f a i b = g a i b) ->
+  mkcore (T:=T) r1 n r2 f = mkcore r1 n r2 g.
+Proof.
+  intros H. unfold mkcore. f_equal. apply tab_ext; intros a Ha. apply tab_ext; intros i Hi.
+  apply tab_ext; intros b Hb. auto.
+Qed.
+Lemma chain_tmode Ms : forall Y r rl, length Ms = length Y -> chain r Y rl -> chain r (tmode Ms Y) rl.
+Proof.
+  induction Ms as [|mM Ms IH]; intros [|G Y] r rl L H; cbn [length] in L; try discriminate; cbn [tmode chain] in *; auto.
+  destruct H as [A B]. split; [exact A|]. apply IH; [lia|exact B].
+Qed.
+Lemma shape_tmode Ms : forall Y, length Ms = length Y -> shape (tmode Ms Y) = map fst Ms.
+Proof.
+  induction Ms as [|mM Ms IH]; intros [|G Y] L; cbn [length] in L; try discriminate; cbn [tmode shape map]; auto.
+  f_equal. apply IH. lia.
+Qed.
+(* a run is linear in the entering vector *)
+Lemma run_lincomb Y idx r rl n (al : nat -> T) (u : nat -> list T) w b :
+  wfo r Y idx rl -> length w = r -> (forall j, j < n -> length (u j) = r) ->
+  (forall c, c < r -> nth c w 0 = bsum K n (fun j => al j * nth c (u j) 0)) -> b < rl ->
+  nth b (run K w Y idx) 0 = bsum K n (fun j => al j * nth b (run K (u j) Y idx) 0).
+Proof.
+  intros W Lw Lu Hw Hb.
+  rewrite (run_decomp K Rth Y w idx r rl W Lw b Hb).
+  rewrite (bsum_ext K n _ (fun j => bsum K r (fun c => al j * nth c (u j) 0 * dget K Y idx r c b))).
+  2:{ intros j Hj. rewrite (run_decomp K Rth Y (u j) idx r rl W (Lu j Hj) b Hb).
+      rewrite <- bsum_mul_l by auto. apply bsum_ext; intros c Hc. ring. }
+  rewrite bsum_swap by auto. apply bsum_ext; intros c Hc. rewrite Hw by auto.
+  rewrite <- bsum_mul_r by auto. reflexivity.
+Qed.
+Lemma vstep_cmode v m M G i c : i < m -> c < cr2 G ->
+  nth c (vstep K v (cmode m M G) i) 0 = bsum K (cn G) (fun j => M i j * nth c (vstep K v G j) 0).
+Proof.
+  intros Hi Hc. rewrite nth_vstep by (unfold cmode; rewrite cr2_mk; auto).
+  unfold cmode at 1. rewrite cr1_mk.
+  rewrite (bsum_ext K (cr1 G) _ (fun a => bsum K (cn G) (fun j => M i j * (nth a v 0 * cget K G a j c)))).
+  2:{ intros a Ha. unfold cmode. rewrite cget_mk by auto. rewrite <- bsum_mul_l by auto.
+      apply bsum_ext; intros j Hj. ring. }
+  rewrite bsum_swap by auto. apply bsum_ext; intros j Hj. rewrite nth_vstep by auto.
+  rewrite bsum_mul_l by auto. reflexivity.
+Qed.
+(* modewise_linear: entries of the transformed TT-tensor are the mode-wise transformed entries *)
+Lemma run_tmode : forall Y Ms v idx r rl b,
+  chain r Y rl -> length Ms = length Y -> length v = r -> inb (map fst Ms) idx -> b < rl ->
+  nth b (run K v (tmode Ms Y) idx) 0 =
+  msum K (shape Y) (fun jdx => mprod (map snd Ms) idx jdx * nth b (run K v Y jdx) 0).
+Proof.
+  induction Y as [|G Y IH]; intros [|[m M] Ms] v idx r rl b HC L Lv Hidx Hb; cbn [length] in L; try discriminate.
+  - inversion Hidx; subst. cbn [tmode run shape map msum mprod]. ring.
+  - destruct idx as [|i idx]; [inversion Hidx|]. cbn [map fst] in Hidx. apply inb_cons in Hidx as [Hi Hidx].
+    cbn [chain] in HC. destruct HC as [HC1 HC].
+    cbn [tmode run fst snd shape map msum].
+    assert (Lw : length (vstep K v (cmode m M G) i) = cr2 G) by (rewrite vstep_length; reflexivity).
+    rewrite (IH Ms _ idx (cr2 G) rl b HC ltac:(lia) Lw Hidx Hb).
+    rewrite (msum_ext K (shape Y) _ (fun jdx => bsum K (cn G) (fun j =>
+               mprod (M :: map snd Ms) (i :: idx) (j :: jdx) * nth b (run K (vstep K v G j) Y jdx) 0))).
+    2:{ intros jdx Hj.
+        rewrite (run_lincomb Y jdx (cr2 G) rl (cn G) (fun j => M i j) (fun j => vstep K v G j)); auto.
+        - rewrite <- bsum_mul_l by auto. apply bsum_ext; intros j Hjj. cbn [mprod]. ring.
+        - apply wfo_chain_inb. split; auto.
+        - intros j _. apply vstep_length.
+        - intros c Hc. apply vstep_cmode; auto. }
+    rewrite msum_bsum_swap. reflexivity.
+Qed.
+Theorem modewise_linear Y Ms idx :
+  chain 1 Y 1 -> length Ms = length Y -> inb (map fst Ms) idx ->
+  get K (tmode Ms Y) idx = msum K (shape Y) (fun jdx => mprod (map snd Ms) idx jdx * get K Y jdx).
+Proof. intros HC L Hi. unfold get. apply (run_tmode Y Ms [1] idx 1 1 O); auto. Qed.
+
+(* product over the dimensions of entries of a size-indexed family of square matrices *)
+Fixpoint gprod (F : nat -> nat -> nat -> T) (ns idx jdx : list nat) : T :=
+  match ns, idx, jdx with
+  | n :: ns', i :: idx', j :: jdx' => F n i j * gprod F ns' idx' jdx'
+  | _, _, _ => 1
+  end.
+Lemma mprod_map F ns : forall idx jdx, mprod (map F ns) idx jdx = gprod F ns idx jdx.
+Proof.
+  induction ns as [|n ns IH]; intros [|i idx] [|j jdx]; cbn [map mprod gprod]; auto. now rewrite IH.
+Qed.
+Lemma msum_gprod_comp F G ns : forall idx kdx, length idx = length ns -> length kdx = length ns ->
+  msum K ns (fun jdx => gprod F ns idx jdx * gprod G ns jdx kdx) =
+  gprod (fun n i k => bsum K n (fun j => F n i j * G n j k)) ns idx kdx.
+Proof.
+  induction ns as [|n ns IH]; intros [|i idx] [|k kdx] L1 L2; cbn [length] in *; try discriminate.
+  - cbn [msum gprod]. ring.
+  - cbn [msum gprod].
+    rewrite (bsum_ext K n _ (fun j => F n i j * G n j k *
+               gprod (fun n i k => bsum K n (fun j => F n i j * G n j k)) ns idx kdx)).
+    2:{ intros j Hj. rewrite <- (IH idx kdx) by lia. rewrite <- msum_mul_l by auto.
+        apply msum_ext; intros jdx _. ring. }
+    rewrite bsum_mul_r by auto. reflexivity.
+Qed.
+Lemma msum_gprod_delta F ns : forall idx (c : list nat -> T), inb ns idx ->
+  (forall n i j, In n ns -> i < n -> j < n -> F n i j = delta i j) ->
+  msum K ns (fun jdx => gprod F ns idx jdx * c jdx) = c idx.
+Proof.
+  induction ns as [|n ns IH]; intros idx c H HF.
+  - inversion H; subst. cbn [msum gprod]. ring.
+  - destruct idx as [|i idx]; [inversion H|]. apply inb_cons in H as [Hi H]. cbn [msum].
+    rewrite (bsum_single K Rth n i); auto.
+    + cbn [gprod]. rewrite HF by (auto; left; auto). unfold delta. rewrite Nat.eqb_refl.
+      rewrite (msum_ext K ns _ (fun jdx => gprod F ns idx jdx * c (i :: jdx))) by (intros; ring).
+      apply (IH idx (fun jdx => c (i :: jdx))); auto. intros; apply HF; auto. right; auto.
+    + intros j Hj Hne. rewrite (msum_ext K ns _ (fun _ => 0)); [apply msum_0; auto|].
+      intros jdx _. cbn [gprod]. rewrite HF by (auto; left; auto). unfold delta.
+      destruct (Nat.eqb_spec i j); [congruence|ring].
+Qed.
+Lemma gprod_ext F G ns : forall idx jdx, inb ns idx -> inb ns jdx ->
+  (forall n i j, In n ns -> i < n -> j < n -> F n i j = G n i j) -> gprod F ns idx jdx = gprod G ns idx jdx.
+Proof.
+  induction ns as [|n ns IH]; intros [|i idx] [|j jdx] Hi Hj H; cbn [gprod]; auto.
+  apply inb_cons in Hi as [Hi Hi']. apply inb_cons in Hj as [Hj Hj'].
+  rewrite H by (auto; left; auto). f_equal. apply IH; auto. intros; apply H; auto. right; auto.
+Qed.
+
+(* a map over the cores that is a mode-wise matrix, core by core *)
+Lemma map_tmode (f : core T -> core T) (M : nat -> nat -> nat -> T) Y :
+  (forall G, In G Y -> f G = cmode (cn G) (M (cn G)) G) ->
+  map f Y = tmode (map (fun G => (cn G, M (cn G))) Y) Y.
+Proof.
+  induction Y as [|G Y IH]; intros H; cbn [map tmode fst snd]; auto. f_equal.
+  - apply H. left; auto.
+  - apply IH. intros; apply H. right; auto.
+Qed.
+Lemma get_map_cmode (f : core T -> core T) (M : nat -> nat -> nat -> T) Y idx :
+  (forall G, In G Y -> f G = cmode (cn G) (M (cn G)) G) -> chain 1 Y 1 -> inb (shape Y) idx ->
+  get K (map f Y) idx = msum K (shape Y) (fun jdx => gprod M (shape Y) idx jdx * get K Y jdx).
+Proof.
+  intros H HC Hi. rewrite (map_tmode f M Y H). rewrite modewise_linear; auto.
+  - apply msum_ext; intros jdx _. rewrite map_map. cbn [snd].
+    change (map (fun x : core T => M (cn x)) Y) with (map (fun G => M (cn G)) Y).
+    rewrite <- (map_map cn M). fold (shape Y). now rewrite mprod_map.
+  - now rewrite map_length.
+  - rewrite map_map. cbn [fst]. exact Hi.
+Qed.
+
+(* ================================================================ the model functions as mode-wise maps *)
+Section Spec.
+Variable cs : nat -> nat -> T.
+Variable sn : nat -> nat -> T.
+(* division is multiplication by the reciprocal (true in every field; at R and Qc) *)
+Hypothesis Hdiv : forall x y, x / y = x * (1 / y).
+Notation inv2 := (1 / ftwo).
+
+(* ---------------------------------------------------------------- func_int *)
+Definition wd (n k j : nat) : T :=
+  if Nat.eqb j O then 1 else if Nat.eqb j (n - 1) then pm K k else ftwo * cs (n - 1) (j * k).
+Definition hfac (n k : nat) : T := (if Nat.eqb k O then inv2 else 1) * (if Nat.eqb k (n - 1) then inv2 else 1).
+(* the matrix of the Chebyshev coefficient transform for a grid of n points *)
+Definition dmat (n k j : nat) : T := wd n k j * (1 / fnat K (n - 1)) * hfac n k.
+Definition smat (n k j : nat) : T := ftwo * sn (n + 1) ((k + 1) * (j + 1)) * (1 / fnat K (n + 1)).
+
+Lemma dct1_sum n x k : 2 <= n -> dct1 K cs n x k = bsum K n (fun j => wd n k j * x j).
+Proof.
+  intros Hn. destruct n as [|[|p]]; try lia. unfold dct1.
+  replace (S (S p) - 2)%nat with p by lia. replace (S (S p) - 1)%nat with (S p) by lia.
+  rewrite bsum_S_l by auto. cbn [bsum]. unfold wd. replace (S (S p) - 1)%nat with (S p) by lia.
+  cbn [Nat.eqb]. rewrite Nat.eqb_refl.
+  rewrite (bsum_ext K p (fun i => (if Nat.eqb i p then pm K k else ftwo * cs (S p) (S i * k)) * x (S i))
+             (fun i => ftwo * (x (S i) * cs (S p) (S i * k)))).
+  2:{ intros i Hi. destruct (Nat.eqb_spec i p); [lia|]. ring. }
+  rewrite bsum_mul_l by auto. ring.
+Qed.
+Lemma halve_ends_mul n k v : halve_ends K n k v = v * hfac n k.
+Proof.
+  unfold halve_ends, hfac. destruct (Nat.eqb k O), (Nat.eqb k (n - 1));
+    [rewrite (Hdiv (v / ftwo)), (Hdiv v) | rewrite (Hdiv v) | rewrite (Hdiv v) | ]; ring.
+Qed.
+Lemma int_core_cheb G : 2 <= cn G -> int_core K cs sn Cheb G = cmode (cn G) (dmat (cn G)) G.
+Proof.
+  intros Hn. unfold int_core, cmode. apply mkcore_ext; intros a k b Ha Hk Hb.
+  rewrite halve_ends_mul, (Hdiv (dct1 K cs (cn G) _ k)), dct1_sum by auto. rewrite <- !bsum_mul_r by auto.
+  apply bsum_ext; intros j Hj. unfold dmat. ring.
+Qed.
+Lemma int_core_sin G : int_core K cs sn Sin G = cmode (cn G) (smat (cn G)) G.
+Proof.
+  unfold int_core, cmode. apply mkcore_ext; intros a k b Ha Hk Hb.
+  rewrite (Hdiv (dst1 K sn (cn G) _ k)). unfold dst1. rewrite <- bsum_mul_l, <- bsum_mul_r by auto.
+  apply bsum_ext; intros j Hj. unfold smat. ring.
+Qed.
+Lemma func_int_cheb_ok Y : Forall (fun G => 2 <= cn G) Y -> func_int K cs sn Y Cheb = Ok (map (int_core K cs sn Cheb) Y).
+Proof.
+  intros H. unfold func_int. replace (forallb (fun G => 2 <=? cn G) Y) with true; auto.
+  symmetry. apply forallb_forall. rewrite Forall_forall in H. intros G HG. apply Nat.leb_le. auto.
+Qed.
+Lemma func_int_cheb_err Y : ~ Forall (fun G => 2 <= cn G) Y -> func_int K cs sn Y Cheb = Err OtherError.
+Proof.
+  intros H. unfold func_int. destruct (forallb (fun G => 2 <=? cn G) Y) eqn:E; auto.
+  exfalso. apply H. apply Forall_forall. intros G HG. rewrite forallb_forall in E. apply Nat.leb_le. auto.
+Qed.
+(* coefficients = mode-wise transform of the values *)
+Lemma get_int_cheb Y idx : chain 1 Y 1 -> Forall (fun G => 2 <= cn G) Y -> inb (shape Y) idx ->
+  get K (map (int_core K cs sn Cheb) Y) idx =
+  msum K (shape Y) (fun jdx => gprod dmat (shape Y) idx jdx * get K Y jdx).
+Proof.
+  intros HC Hn Hi. apply get_map_cmode; auto. intros G HG. apply int_core_cheb.
+  rewrite Forall_forall in Hn. auto.
+Qed.
+Lemma get_int_sin Y idx : chain 1 Y 1 -> inb (shape Y) idx ->
+  get K (map (int_core K cs sn Sin) Y) idx =
+  msum K (shape Y) (fun jdx => gprod smat (shape Y) idx jdx * get K Y jdx).
+Proof. intros HC Hi. apply get_map_cmode; auto. intros G HG. apply int_core_sin. Qed.
+End Spec.
 End FuncP.
